@@ -2,8 +2,9 @@
   C05 — Vesting module account is always exactly backed by its pools.
 -/
 import C4E.Vesting
+import C4E.Lemmas.VestBacked
 namespace C4E.Props.C05
-open C4E C4E.Vest
+open C4E C4E.Vest C4E.CoinList
 
 /-- per-pool solvency -/
 def PoolOk (p : Pool) : Prop := 0 ≤ p.withdrawn ∧ 0 ≤ p.sent ∧ p.withdrawn + p.sent ≤ p.initially
@@ -47,6 +48,446 @@ theorem rejected_noop (s : State) (m : Msg) (h : ∀ r, (deliver s m).2 ≠ .ok 
     | err => rfl
     | panic => rfl
   · simp [hv]
+
+/-! ### the backing identity over whole histories -/
+
+/-- the vesting module account holds exactly what the pools still lock -/
+def Backed (s : State) : Prop := modBal s = lockedSum s
+
+/-- the module account's own address cannot receive coins from the module (it is a blocked address) -/
+def ModBlocked (s : State) : Prop := s.blocked.contains s.modAddr = true
+
+/-- the account a message is signed by -/
+def signer : Msg → String
+  | .createPool o _ _ _ _ => o.s
+  | .withdraw o => o.s
+  | .send o _ _ _ _ => o.s
+  | .createVA f _ _ _ _ => f.s
+  | .split f _ _ => f.s
+  | .move f _ => f.s
+  | .moveDenoms f _ _ => f.s
+
+theorem modBal_setPools (s : State) (o : String) (ps : List Pool) : modBal (s.setPools o ps) = modBal s := rfl
+
+theorem modBal_send_in (s : State) (src : String) (c : Coins) (h : src ≠ s.modAddr) :
+    modBal (s.applySend src s.modAddr c) = modBal s + amountOf c s.denom := by
+  unfold modBal
+  rw [(applySend_fields s src s.modAddr c).2.1, (applySend_fields s src s.modAddr c).2.2.1]
+  exact applySend_bal_dst s src s.modAddr c s.denom h
+
+theorem modBal_send_out (s : State) (dst : String) (c : Coins) (h : dst ≠ s.modAddr) :
+    modBal (s.applySend s.modAddr dst c) = modBal s - amountOf c s.denom := by
+  unfold modBal
+  rw [(applySend_fields s s.modAddr dst c).2.1, (applySend_fields s s.modAddr dst c).2.2.1]
+  exact applySend_bal_src s s.modAddr dst c s.denom (Ne.symm h)
+
+theorem modBal_send_other (s : State) (src dst : String) (c : Coins) (h1 : src ≠ s.modAddr) (h2 : dst ≠ s.modAddr) :
+    modBal (s.applySend src dst c) = modBal s := by
+  unfold modBal
+  rw [(applySend_fields s src dst c).2.1, (applySend_fields s src dst c).2.2.1,
+    applySend_bal_other s src dst s.modAddr c (Ne.symm h1) (Ne.symm h2)]
+
+theorem lockedSum_applySend (s : State) (src dst : String) (c : Coins) : lockedSum (s.applySend src dst c) = lockedSum s := rfl
+
+/-- the invariant carried over histories: exact backing, every pool solvent, and the module
+    account's own address on the blocked list (so that the module never pays itself) -/
+def Inv (s : State) : Prop := Backed s ∧ Solvent s ∧ ModBlocked s
+
+theorem lockedSum_congr (s s' : State) (h : s'.pools = s.pools) : lockedSum s' = lockedSum s := by
+  unfold lockedSum; rw [h]
+
+theorem inv_same {s s' : State} (hi : Inv s) (h : Same s s') : Inv s' := by
+  obtain ⟨hb, hsol, hm⟩ := hi
+  refine ⟨?_, ?_, ?_⟩
+  · unfold Backed at hb ⊢; rw [h.bal, lockedSum_congr _ _ h.pools]; exact hb
+  · intro kv hkv; rw [h.pools] at hkv; exact hsol kv hkv
+  · unfold ModBlocked at hm ⊢; rw [h.blocked, h.mod]; exact hm
+
+theorem solvent_get (s : State) (o : String) (ps : List Pool) (hs : Solvent s) (h : s.pools.get? o = some ps) :
+    ∀ p ∈ ps, 0 ≤ p.withdrawn ∧ 0 ≤ p.sent ∧ p.withdrawn + p.sent ≤ p.initially :=
+  hs (o, ps) (get?_mem _ _ _ h)
+
+/-- create-pool keeps the invariant -/
+theorem createPool_inv (s : State) (o : Addr) (name : String) (amount dur : Int) (vt : String) (res : Res)
+    (h : createPool s o name amount dur vt = .ok res) (hs : o.s ≠ s.modAddr) (hi : Inv s) :
+    Inv res.st ∧ res.st.modAddr = s.modAddr := by
+  obtain ⟨hb, hsol, hm⟩ := hi
+  unfold createPool at h
+  split at h
+  · cases h
+  · split at h
+    · cases h
+    · rename_i hv
+      split at h
+      · cases h
+      · split at h
+        · cases h
+        · simp only [] at h
+          split at h
+          · cases h
+          · split at h
+            · rename_i s1 hsend
+              cases h
+              have hs1 := send_ok_eq _ _ _ _ _ hsend
+              subst hs1
+              refine ⟨⟨?_, ?_, ?_⟩, rfl⟩
+              · unfold Backed at hb ⊢
+                rw [modBal_setPools, modBal_send_in s o.s _ hs, lockedSum_setPools, lockedSum_applySend,
+                  (applySend_fields s o.s s.modAddr _).1, poolsLocked_append, amountOf_nz_single]
+                simp only [poolsLocked, List.map_cons, List.map_nil, sumInts_cons, sumInts_nil, Pool.locked]
+                omega
+              · apply solvent_setPools
+                · exact hsol
+                · intro p hp
+                  rcases List.mem_append.mp hp with hp | hp
+                  · cases hg : s.pools.get? o.s with
+                    | none => rw [hg] at hp; simp at hp
+                    | some ps0 => rw [hg] at hp; exact solvent_get s o.s ps0 hsol hg p hp
+                  · simp at hp; subst hp
+                    simp [validateBasic] at hv
+                    simp only []
+                    omega
+              · exact hm
+            · cases h
+            · cases h
+
+/-- withdraw keeps the invariant -/
+theorem withdrawAll_inv (s : State) (o : Addr) (res : Res)
+    (h : withdrawAll s o = .ok res) (hi : Inv s) :
+    Inv res.st ∧ res.st.modAddr = s.modAddr ∧ res.st.now = s.now ∧ res.st.vtypes = s.vtypes ∧ res.st.denom = s.denom := by
+  obtain ⟨hb, hsol, hm⟩ := hi
+  unfold withdrawAll at h
+  split at h
+  · cases h
+  · split at h
+    · cases h
+    · rename_i ps hps
+      have hok := solvent_get s o.s ps hsol hps
+      have hps' : ∀ p ∈ ps.map (fun p => { p with withdrawn := p.withdrawn + withdrawable s.now p }),
+          0 ≤ p.withdrawn ∧ 0 ≤ p.sent ∧ p.withdrawn + p.sent ≤ p.initially := by
+        intro p hp
+        obtain ⟨q, hq, rfl⟩ := List.mem_map.mp hp
+        exact withdraw_keeps_poolOk s.now q (hok q hq)
+      have hnn := sum_withdrawable_nonneg s.now ps (fun p hp => (hok p hp).2.2)
+      split at h
+      · cases h
+      · simp only [] at h
+        split at h
+        · rename_i s1 hsent
+          split at h
+          · cases h
+          · cases h
+            by_cases hpos : sumInts (ps.map (withdrawable s.now)) > 0
+            · rw [if_pos hpos] at hsent
+              split at hsent
+              · cases hsent
+              · obtain ⟨e1, e2, e3, e4, e5, e6, e7⟩ := sendFromModule_effect s s1 o.s _ hm hsent
+                refine ⟨⟨?_, ?_, ?_⟩, e2, e5, e6, e3⟩
+                · unfold Backed at hb ⊢
+                  rw [modBal_setPools, lockedSum_setPools, e7, lockedSum_congr _ _ e1, e1, hps, poolsLocked_withdraw]
+                  simp only [Option.getD_some, amountOf, if_true, Int.add_zero]
+                  omega
+                · apply solvent_setPools _ _ _ _ hps'
+                  intro kv hkv; rw [e1] at hkv; exact hsol kv hkv
+                · unfold ModBlocked at hm ⊢
+                  show s1.blocked.contains s1.modAddr = true
+                  rw [e4, e2]; exact hm
+            · rw [if_neg hpos] at hsent
+              cases hsent
+              refine ⟨⟨?_, ?_, hm⟩, rfl, rfl, rfl, rfl⟩
+              · unfold Backed at hb ⊢
+                rw [modBal_setPools, lockedSum_setPools, hps, poolsLocked_withdraw]
+                simp only [Option.getD_some]
+                omega
+              · exact solvent_setPools _ _ _ hsol hps'
+        · cases h
+        · cases h
+
+/-- the payout that funds a new vesting account: pools untouched, the module balance drops by `amount` -/
+theorem newVestingAccount_effect (s s' : State) (to : String) (amount free le ve : Int) (hm : ModBlocked s)
+    (h : newVestingAccount s to amount free le ve = .ok s') :
+    s'.pools = s.pools ∧ s'.modAddr = s.modAddr ∧ s'.denom = s.denom ∧ s'.blocked = s.blocked ∧
+    modBal s' = modBal s - amount := by
+  unfold newVestingAccount at h
+  split at h
+  · cases h
+  · split at h
+    · cases h
+    · split at h
+      · cases h
+      · simp only [] at h
+        split at h
+        · cases h
+        · split at h
+          · rename_i s2 hsend
+            cases h
+            have hsame := same_newCva s to (nz [(s.denom, Dec.truncInt (Dec.ofInt amount - Dec.mul (Dec.ofInt amount) free))])
+              (unixSec (if le < s.now then s.now else le)) (unixSec ve)
+            have hm1 : (newCva s to (nz [(s.denom, Dec.truncInt (Dec.ofInt amount - Dec.mul (Dec.ofInt amount) free))])
+              (unixSec (if le < s.now then s.now else le)) (unixSec ve)).blocked.contains
+                (newCva s to (nz [(s.denom, Dec.truncInt (Dec.ofInt amount - Dec.mul (Dec.ofInt amount) free))])
+              (unixSec (if le < s.now then s.now else le)) (unixSec ve)).modAddr = true := hm
+            obtain ⟨e1, e2, e3, e4, _, _, e7⟩ := sendFromModule_effect _ _ _ _ hm1 hsend
+            refine ⟨e1, e2, e3, e4, ?_⟩
+            rw [e7]
+            show modBal s - amountOf (nz [(s.denom, amount)]) s.denom = _
+            rw [amountOf_nz_single]
+          · cases h
+          · cases h
+
+/-- send-to-new-vesting-account keeps the invariant -/
+theorem sendToNew_inv (s : State) (o to : Addr) (pool : String) (amount : Int) (restart : Bool) (res : Res)
+    (h : sendToNew s o to pool amount restart = .ok res) (hi : Inv s) :
+    Inv res.st ∧ res.st.modAddr = s.modAddr := by
+  unfold sendToNew at h
+  split at h
+  · cases h
+  · rename_i hv
+    split at h
+    · cases h
+    · cases h
+    · rename_i w hw
+      obtain ⟨⟨hb1, hsol1, hm1⟩, hmod1, _, _, _⟩ := withdrawAll_inv s o w hw hi
+      simp only [] at h
+      split at h
+      · cases h
+      · rename_i ps hps
+        split at h
+        · cases h
+        · split at h
+          · cases h
+          · rename_i p hp
+            split at h
+            · cases h
+            · rename_i hle
+              split at h
+              · cases h
+              · rename_i vt _
+                split at h
+                · cases h
+                · cases h
+                · rename_i s2 hr
+                  cases h
+                  have heff : s2.pools = w.st.pools ∧ s2.modAddr = w.st.modAddr ∧ s2.denom = w.st.denom ∧
+                      s2.blocked = w.st.blocked ∧ modBal s2 = modBal w.st - amount := by
+                    cases restart
+                    · simp only [Bool.false_eq_true, if_false] at hr
+                      exact newVestingAccount_effect _ _ _ _ _ _ _ hm1 hr
+                    · simp only [if_true] at hr
+                      exact newVestingAccount_effect _ _ _ _ _ _ _ hm1 hr
+                  obtain ⟨e1, e2, e3, e4, e5⟩ := heff
+                  have hflag : (bumpLast pool amount ps).2 = true := by
+                    rw [bumpLast_flag, hp]; rfl
+                  have ha0 : 0 ≤ amount := by
+                    simp [validateBasic] at hv
+                    omega
+                  have hinv2 : Inv (s2.setPools o.s (bumpLast pool amount ps).1) := by
+                    refine ⟨?_, ?_, ?_⟩
+                    · unfold Backed at hb1 ⊢
+                      rw [modBal_setPools, lockedSum_setPools, e5, lockedSum_congr _ _ e1, e1, hps, poolsLocked_bumpLast, hflag]
+                      simp only [Option.getD_some, if_true]
+                      omega
+                    · apply solvent_setPools
+                      · intro kv hkv; rw [e1] at hkv; exact hsol1 kv hkv
+                      · intro q' hq'
+                        rcases bumpLast_mem pool amount ps q' hq' with hq | ⟨q, hq, rfl⟩
+                        · exact solvent_get _ _ _ hsol1 hps q' hq
+                        · rw [hp] at hq; cases hq
+                          have := solvent_get _ _ _ hsol1 hps p (lastNamed_mem pool ps p hp)
+                          exact send_keeps_poolOk p amount this ha0 (by omega)
+                    · unfold ModBlocked at hm1 ⊢
+                      show s2.blocked.contains s2.modAddr = true
+                      rw [e4, e2]; exact hm1
+                  exact ⟨inv_same hinv2 (same_appendTrace _ _ _ _), e2.trans hmod1⟩
+
+/-- create-vesting-account never touches the pools or the module account -/
+theorem createVA_same (s : State) (src to : Addr) (amount : List (String × Option Int)) (a b : Int) (res : Res)
+    (h : createVA s src to amount a b = .ok res) (hs : src.s ≠ s.modAddr) (hm : ModBlocked s) : Same s res.st := by
+  unfold createVA at h
+  split at h
+  · cases h
+  · simp only [] at h
+    split at h
+    · cases h
+    · rename_i hnb
+      split at h
+      · cases h
+      · split at h
+        · rename_i s2 hsend
+          cases h
+          have := send_ok_eq _ _ _ _ _ hsend
+          subst this
+          have hto := not_blocked_ne_mod s to.s hm hnb
+          exact (same_newCva s _ _ _ _).trans (same_applySend _ _ _ _ hs hto)
+        · cases h
+        · cases h
+
+/-- a split / move of vesting coins never touches the pools or the module account -/
+theorem splitCoins_same (s : State) (src to : String) (amount : Coins) (res : Res)
+    (h : splitCoins s src to amount = .ok res) (hs : src ≠ s.modAddr) (hm : ModBlocked s) : Same s res.st := by
+  unfold splitCoins at h
+  split at h
+  · cases h
+  · split at h
+    · cases h
+    · rename_i hnb
+      have hto := not_blocked_ne_mod s to hm hnb
+      split at h
+      · cases h
+      · split at h
+        · cases h
+        · cases h
+        · rename_i s1 vacc hu
+          have h1 := same_unlock s s1 src amount vacc hu
+          simp only [] at h
+          split at h
+          · cases h
+          · cases h
+          · rename_i s3 hsend
+            have := send_ok_eq _ _ _ _ _ hsend
+            subst this
+            have h2 := same_newCva s1 to (sortBy (fun a b => a.1 < b.1) amount)
+              (if vacc.startS > unixSec s.now then vacc.startS else unixSec s.now) vacc.endS
+            have h3 := same_applySend (newCva s1 to (sortBy (fun a b => a.1 < b.1) amount)
+              (if vacc.startS > unixSec s.now then vacc.startS else unixSec s.now) vacc.endS) src to amount
+              (by show src ≠ s1.modAddr; rw [h1.mod]; exact hs) (by show to ≠ s1.modAddr; rw [h1.mod]; exact hto)
+            have h123 := (h1.trans h2).trans h3
+            split at h
+            · cases h; exact h123.trans (same_appendTrace _ _ _ _)
+            · cases h; exact h123
+
+/-- every successfully handled message keeps the invariant and the module address -/
+theorem handle_inv (s : State) (m : Msg) (res : Res) (h : handle s m = .ok res) (hs : signer m ≠ s.modAddr) (hi : Inv s) :
+    Inv res.st ∧ res.st.modAddr = s.modAddr := by
+  cases m with
+  | createPool o name amount dur vt =>
+    unfold handle at h
+    cases amount with
+    | none => cases h
+    | some a => exact createPool_inv s o name a dur vt res h hs hi
+  | withdraw o =>
+    unfold handle at h
+    have := withdrawAll_inv s o res h hi
+    exact ⟨this.1, this.2.1⟩
+  | send o to pool amount restart =>
+    unfold handle at h
+    cases amount with
+    | none => cases h
+    | some a => exact sendToNew_inv s o to pool a restart res h hi
+  | createVA f to amount a b =>
+    unfold handle at h
+    cases amount with
+    | none => cases h
+    | some c =>
+      simp only [] at h
+      split at h
+      · cases h
+      · have hsame := createVA_same s f to c a b res h hs hi.2.2
+        exact ⟨inv_same hi hsame, hsame.mod⟩
+  | split f to amount =>
+    unfold handle at h
+    cases amount with
+    | none => cases h
+    | some c =>
+      simp only [] at h
+      split at h
+      · cases h
+      · split at h
+        · cases h
+        · have hsame := splitCoins_same s f.s to.s _ res h hs hi.2.2
+          exact ⟨inv_same hi hsame, hsame.mod⟩
+  | move f to =>
+    simp only [handle] at h
+    split at h
+    · cases h
+    · split at h
+      · cases h
+      · have hsame := splitCoins_same s f.s to.s _ res h hs hi.2.2
+        exact ⟨inv_same hi hsame, hsame.mod⟩
+  | moveDenoms f to denoms =>
+    simp only [handle] at h
+    split at h
+    · cases h
+    · split at h
+      · cases h
+      · have hsame := splitCoins_same s f.s to.s _ res h hs hi.2.2
+        exact ⟨inv_same hi hsame, hsame.mod⟩
+
+/-- one delivered message — accepted or rejected — keeps the invariant -/
+theorem deliver_inv (s : State) (m : Msg) (hs : signer m ≠ s.modAddr) (hi : Inv s) :
+    Inv (deliver s m).1 ∧ (deliver s m).1.modAddr = s.modAddr := by
+  unfold deliver
+  split
+  · exact ⟨hi, rfl⟩
+  · cases hh : handle s m with
+    | ok r => exact handle_inv s m r hh hs hi
+    | err => exact ⟨hi, rfl⟩
+    | panic => exact ⟨hi, rfl⟩
+
+/-- a history: vesting messages interleaved with arbitrary passage of block time -/
+inductive HOp where
+  | msg (m : Msg)
+  | time (t : Int)
+
+def hstep (s : State) : HOp → State
+  | .msg m => (deliver s m).1
+  | .time t => { s with now := t }
+
+def hrun (s : State) (ops : List HOp) : State := ops.foldl hstep s
+
+/-- no message of the history is signed by the module account itself (it has no key) -/
+def NotByModule (mod : String) (ops : List HOp) : Prop := ∀ m, HOp.msg m ∈ ops → signer m ≠ mod
+
+/-- **C05 over every history**: from a state where the module account is exactly backed and
+    every pool is solvent, after any sequence of messages (accepted, rejected or panicking) and
+    block-time changes, the module account is exactly backed and every pool is solvent. -/
+theorem backed_over_histories (ops : List HOp) : ∀ (s : State), Inv s → NotByModule s.modAddr ops →
+    Inv (hrun s ops) ∧ (hrun s ops).modAddr = s.modAddr := by
+  induction ops with
+  | nil => intro s hi _; exact ⟨hi, rfl⟩
+  | cons op rest ih =>
+    intro s hi hn
+    have hstepInv : Inv (hstep s op) ∧ (hstep s op).modAddr = s.modAddr := by
+      cases op with
+      | msg m => exact deliver_inv s m (hn m (by simp)) hi
+      | time t =>
+        refine ⟨?_, rfl⟩
+        exact inv_same hi ⟨rfl, rfl, rfl, rfl, rfl, rfl⟩
+    have hn' : NotByModule (hstep s op).modAddr rest := by
+      intro m hm; rw [hstepInv.2]; exact hn m (by simp [hm])
+    obtain ⟨h1, h2⟩ := ih (hstep s op) hstepInv.1 hn'
+    exact ⟨h1, h2.trans hstepInv.2⟩
+
+/-- the registered invariants of the Go module hold in every state satisfying `Inv` -/
+theorem inv_implies_registered (s : State) (hi : Inv s) :
+    invModuleAccount s = true ∧ invConsistent s = true := by
+  obtain ⟨hb, hsol, _⟩ := hi
+  refine ⟨?_, ?_⟩
+  · unfold invModuleAccount; unfold Backed modBal at hb; simp [hb]
+  · unfold invConsistent
+    rw [List.all_eq_true]
+    intro kv hkv
+    rw [List.all_eq_true]
+    intro p hp
+    have := (hsol kv hkv p hp).2.2
+    simp; omega
+
+/-- the statement of C05 for every history: exact backing, per-pool solvency, and the Go
+    module's registered invariants, in every reachable state -/
+theorem c05_every_reachable_state (s : State) (ops : List HOp) (hi : Inv s) (hn : NotByModule s.modAddr ops) :
+    modBal (hrun s ops) = lockedSum (hrun s ops) ∧
+    (∀ kv ∈ (hrun s ops).pools, ∀ p ∈ kv.2, PoolOk p) ∧
+    invModuleAccount (hrun s ops) = true ∧ invConsistent (hrun s ops) = true := by
+  have h := (backed_over_histories ops s hi hn).1
+  exact ⟨h.1, h.2.1, inv_implies_registered _ h⟩
+
+/-- the empty ledger with an empty, blocked module account satisfies the invariant (genesis) -/
+theorem inv_genesis (mod denom : String) (vts : List VType) (accts : AList Acct) (bal : AList Coins) (blocked : List String)
+    (hb : blocked.contains mod = true) (h0 : amountOf ((bal.get? mod).getD []) denom = 0) :
+    Inv { denom := denom, vtypes := vts, accts := accts, bal := bal, blocked := blocked, modAddr := mod } := by
+  refine ⟨?_, ?_, hb⟩
+  · unfold Backed modBal State.balance lockedSum; simpa using h0
+  · intro kv hkv; cases hkv
 
 theorem poolOk_nonvacuous : PoolOk { name := "p", vtype := "t", lockStart := 0, lockEnd := 100, initially := 10, withdrawn := 3, sent := 2 } := by
   unfold PoolOk; decide
